@@ -349,24 +349,29 @@ def variants(v):
             yield ("L", t)
 
 
-def shrink_case(case, fails, budget=400):
+def shrink_case(case, fails_batch, rounds=40, width=80):
+    """Greedy shrinking; `fails_batch(list of cases) -> list of bool` evaluates one round of candidates in a single
+    run of the drivers."""
     toks = case.split()
     if not toks:
         return case
     if toks[0] == "P":
         b = bytes.fromhex(toks[1]) if len(toks) > 1 else b""
-        changed = True
-        while changed and budget > 0:
-            changed = False
-            for i in range(len(b)):
-                cand = b[:i] + b[i + 1:]
-                budget -= 1
-                if fails("P " + cand.hex()):
-                    b = cand
-                    changed = True
-                    break
-                if budget <= 0:
-                    break
+        for _ in range(rounds):
+            cands = []
+            for n in (max(1, len(b) // 2), max(1, len(b) // 4), 1):
+                for i in range(0, len(b), n):
+                    c = b[:i] + b[i + n:]
+                    if c not in cands and len(c) < len(b):
+                        cands.append(c)
+            cands = cands[:width]
+            if not cands:
+                break
+            res = fails_batch(["P " + c.hex() for c in cands])
+            hit = [c for c, r in zip(cands, res) if r]
+            if not hit:
+                break
+            b = min(hit, key=len)
         return "P " + b.hex()
     if toks[0] != "T" or len(toks) < 3:
         return case
@@ -375,24 +380,22 @@ def shrink_case(case, fails, budget=400):
     except ValueError:
         return case
     indent = toks[1]
-    for ind in ("0",):
-        if indent != ind:
-            budget -= 1
-            if fails("T %s %s" % (ind, " ".join(unparse(tree)))):
-                indent = ind
-    changed = True
-    while changed and budget > 0:
-        changed = False
+    if indent != "0" and fails_batch(["T 0 " + " ".join(unparse(tree))])[0]:
+        indent = "0"
+    for _ in range(rounds):
+        cands = []
         for cand in variants(tree):
-            if tree_size(cand) >= tree_size(tree) and cand[0] != "L":
-                continue
-            budget -= 1
-            if fails("T %s %s" % (indent, " ".join(unparse(cand)))):
-                tree = cand
-                changed = True
+            if tree_size(cand) < tree_size(tree) or (cand[0] == "L" and cand != tree):
+                cands.append(cand)
+            if len(cands) >= width:
                 break
-            if budget <= 0:
-                break
+        if not cands:
+            break
+        res = fails_batch(["T %s %s" % (indent, " ".join(unparse(c))) for c in cands])
+        hit = [c for c, r in zip(cands, res) if r]
+        if not hit:
+            break
+        tree = min(hit, key=tree_size)
     return "T %s %s" % (indent, " ".join(unparse(tree)))
 
 
@@ -505,13 +508,13 @@ def run(run, tier, seed, replay_case=None):
     # token deletion would produce unbalanced trees); bounded, and each distinct shrunk case is kept once
     fails = [i for i in range(len(cases)) if D.fails_spec(I[i], S[i])]
     seen = {}
-    for n, i in enumerate(fails):
-        if n >= 60:
-            break
 
-        def still(c):
-            i1, r1, s1 = D.eval([c], parallel=False)
-            return D.fails_spec(i1[0], s1[0])
+    def still(cs):
+        i1, r1, s1 = D.eval(cs, parallel=False)
+        return [D.fails_spec(a, b) for a, b in zip(i1, s1)]
+    for n, i in enumerate(fails):
+        if n >= 40:
+            break
         small = shrink_case(cases[i], still)
         if small != cases[i]:
             i1, r1, s1 = D.eval([small], parallel=False)
